@@ -44,7 +44,15 @@ func genC14(t *rapid.T) *Script {
 		switch k := rapid.IntRange(0, 9).Draw(t, "stepKind"); {
 		case k < 4:
 			id, _ := genTestReqID(t)
-			sc.Steps = append(sc.Steps, rig.Step{Op: "in", In: g.testRequest(id)})
+			m := g.testRequest(id)
+			if rapid.IntRange(0, 4).Draw(t, "withHops") == 0 {
+				// the standard header's repeating group (NoHops) is present, and the TestReqID may look like one of its fields
+				m.PreSeq = append(m.PreSeq, rig.F("627", "1"), rig.F("628", "HUB"), rig.F("630", "1"))
+				if rapid.Bool().Draw(t, "hopLookalike") {
+					m.Fields[0].Val = rapid.SampledFrom([]string{"ROUTE628=LDN", "628=X", "a627=1", "x630=2"}).Draw(t, "hopLookalikeID")
+				}
+			}
+			sc.Steps = append(sc.Steps, rig.Step{Op: "in", In: m})
 			g.sent++
 		case k < 7:
 			nb := rapid.IntRange(2, 8).Draw(t, "burstLen")
@@ -72,6 +80,19 @@ func genC14(t *rapid.T) *Script {
 			sc.Steps = append(sc.Steps, rig.Step{Op: "send", ID: fmt.Sprintf("app%d", i)})
 			g.sent++
 		case k < 9:
+			if rapid.Bool().Draw(t, "damagedOther") {
+				// a message that fails the integrity check (also a Logout): rejected, and the next
+				// TestRequest is answered as if nothing had happened
+				var m *rig.InMsg
+				if rapid.Bool().Draw(t, "damagedLogout") {
+					m = g.logout()
+				} else {
+					m = g.heartbeat("")
+				}
+				sc.Steps = append(sc.Steps, rig.Step{Op: "in", In: damage(t, m)})
+				g.sent++
+				break
+			}
 			sc.Steps = append(sc.Steps, rig.Step{Op: "in", In: g.heartbeat("")})
 		default:
 			// stay below the heartbeat interval in total so that no timer acts
